@@ -74,6 +74,50 @@ pub fn g_bytes_len(min_runs: usize, max_runs: usize, max_run: usize, max_len: us
     })
 }
 
+/// Inputs shaped to reach the end-of-data rules of the mode encoders: an optional short prefix,
+/// a body of one character class whose length is a multiple of 3 or 4 plus 0..=3, and a tail of
+/// 0..=4 characters of another class.
+pub fn g_eod() -> impl Strategy<Value = Vec<u8>> {
+    (any::<u16>(), vec(any::<u8>(), 3), any::<u16>(), 1usize..=9, 0usize..=3, any::<bool>(), any::<u16>(), 0usize..=4, vec(any::<u8>(), 48)).prop_map(
+        |(pk, pre, bk, k, d, quad, tk, tl, seeds)| {
+            let mut v = Vec::new();
+            let plen = pick(pk, 4);
+            let pclass = [2usize, 7, 8, 0][pick(pk.rotate_left(4), 4)];
+            for i in 0..plen.min(3) {
+                v.push(class_char(pclass, pre[i]));
+            }
+            // body class: upper (C40/X12), lower (Text), X12 specials, digits, EDIFACT range, high bytes
+            let bclass = [1usize, 2, 3, 0, 5, 8, 1, 5][pick(bk, 8)];
+            let blen = if quad { 4 * k + d } else { 3 * k + d };
+            for i in 0..blen {
+                v.push(class_char(bclass, seeds[i % 48].wrapping_add((i / 48) as u8)));
+            }
+            let tclass = [0usize, 0, 1, 2, 8, 4, 6][pick(tk, 7)];
+            for i in 0..tl {
+                v.push(class_char(tclass, seeds[47 - i]));
+            }
+            v
+        },
+    )
+}
+
+/// Base256 length-field boundaries: runs of 248..=252 and 1553..=1556 high bytes
+pub fn g_b256_boundary() -> impl Strategy<Value = Vec<u8>> {
+    (any::<u16>(), any::<u64>(), 0usize..3, any::<u8>()).prop_map(|(k, seed, extra, e)| {
+        let n = [248usize, 249, 250, 251, 252, 250, 249, 1553, 1554, 1555, 1556][pick(k, 11)];
+        let mut v: Vec<u8> = expand(seed, n).iter().map(|b| b | 0x80).collect();
+        for i in 0..extra {
+            // a few characters of another kind in front or behind
+            if e & 1 == 0 {
+                v.push(b'0' + (e.wrapping_add(i as u8)) % 10);
+            } else {
+                v.insert(0, b'a' + (e.wrapping_add(i as u8)) % 26);
+            }
+        }
+        v
+    })
+}
+
 /// length strata 0–8 / 9–40 / 41–300 / 301–3116 with the weights of DESIGN §3.3
 pub fn g_bytes(long_weight: u32) -> BoxedStrategy<(Vec<u8>, &'static str)> {
     prop_oneof![
@@ -81,6 +125,8 @@ pub fn g_bytes(long_weight: u32) -> BoxedStrategy<(Vec<u8>, &'static str)> {
         4 => g_bytes_len(1, 8, 8, 40).prop_map(|v| (v, "len9-40")),
         2 => g_bytes_len(4, 30, 12, 300).prop_map(|v| (v, "len41-300")),
         long_weight => g_bytes_len(20, 300, 12, 3116).prop_map(|v| (v, "len301-3116")),
+        3 => g_eod().prop_map(|v| (v, "eod-shaped")),
+        long_weight => g_b256_boundary().prop_map(|v| (v, "b256-length-boundary")),
     ]
     .boxed()
 }
@@ -91,6 +137,7 @@ pub fn g_bytes_short() -> BoxedStrategy<(Vec<u8>, &'static str)> {
         4 => g_bytes_len(0, 4, 3, 8).prop_map(|v| (v, "len0-8")),
         5 => g_bytes_len(1, 8, 8, 40).prop_map(|v| (v, "len9-40")),
         2 => g_bytes_len(4, 16, 10, 120).prop_map(|v| (v, "len41-120")),
+        4 => g_eod().prop_map(|v| (v, "eod-shaped")),
     ]
     .boxed()
 }
